@@ -58,6 +58,9 @@ def tokenise(case, out):
 
 
 def check(run):
+    import genlib
+    genlib.validate_eam_writer(run, "tabeam", n=run.n(10, 100))
+    genlib.validate_eam_writer(run, "tabeam_fs", n=run.n(6, 60))
     run.rule = ("tracer EAM and Finnis-Sinclair models (1..4 elements, random subset/orientation/order of declared pairs, grids nr 2..14, nrho 2..11 on dyadic "
                 "cutoffs so that %f prints exactly) x routes writeTABEAM(FinnisSinclair), TABEAM tabulation classes, potable DL_POLY_EAM(_fs) via Configuration and "
                 "the potable entry point; the tokeniser checks that every block header's n is followed by exactly n values in records of <= 4; "
